@@ -32,10 +32,11 @@ type History struct {
 const noResetPrologue = "BEGIN { r = 0; g0 = \"\"; g1 = \"\"; g2 = \"\"; g3 = \"\"; delete a; for (zk_ = ARGC; zk_ < 16; zk_++) delete ARGV[zk_] }\n"
 
 func (h *History) src() string {
+	pro := h.Runs[0].modePrologue() // INPUTMODE assigned in BEGIN: the same mode in every run
 	if h.Reset == "none" {
-		return h.P.awkP(noResetPrologue)
+		pro += noResetPrologue
 	}
-	return h.P.awk()
+	return h.P.awkP(pro)
 }
 
 func (h *History) wire() string {
@@ -48,7 +49,8 @@ func (h *History) wire() string {
 		if c.NoArgVars {
 			nav = 1
 		}
-		fmt.Fprintf(&sb, " %d %s %s %s %s", nav, wireStrs("A", c.Args), wireStrs("I", c.Stdin), wireNamed("F", c.Files), wireNamed("C", c.Cmds))
+		fmt.Fprintf(&sb, " %d %d %s %s %s %s", nav, c.modeSep(), wireStrs("A", c.Args), wireStrs("I", c.recs(c.Stdin)),
+			wireNamed("F", c.namedRecs(c.Files)), wireNamed("C", c.namedRecs(c.Cmds)))
 	}
 	return sb.String()
 }
@@ -88,7 +90,7 @@ func runHistoryImpl(h *History) (res []implResult, herr error) {
 			}()
 			var out bytes.Buffer
 			cfg := &interp.Config{Stdin: in, Output: &out, Error: new(strings.Builder), Args: c.Args, Argv0: "goawk", Funcs: funcs,
-				NoArgVars: c.NoArgVars, Environ: []string{}}
+				NoArgVars: c.NoArgVars, Environ: []string{}, InputMode: configMode(c)}
 			ctx, cancel := context.WithTimeout(context.Background(), 10*time.Second)
 			defer cancel()
 			st, err := ip.ExecuteContext(ctx, cfg)
@@ -111,7 +113,7 @@ func histDetail(h *History, k int, extra map[string]any) map[string]any {
 	hj, _ := json.Marshal(h)
 	var runs []map[string]any
 	for _, c := range h.Runs {
-		runs = append(runs, map[string]any{"args": c.Args, "stdin_records": c.Stdin, "files": c.Files, "noargvars": c.NoArgVars})
+		runs = append(runs, map[string]any{"args": c.Args, "stdin_records": c.Stdin, "files": c.Files, "noargvars": c.NoArgVars, "input_mode": c.Mode, "input_mode_set_by": c.ModeVia})
 	}
 	d := map[string]any{"program": h.src(), "reset_between_runs": h.Reset, "runs": runs, "failing_run": k, "history": h.Name,
 		"model_line": h.wire(), "history_json": string(hj)}
@@ -286,10 +288,16 @@ func genHistoryRandom(r *hx.Rand, i int) *History {
 	h.Runs = append(h.Runs, c)
 	g := &gen{r: r}
 	for k := 0; k < 1+r.Intn(2); k++ {
-		b := baseCase(g, "history", false)
+		b := baseCaseRaw(g, "history", false)
 		b.P = c.P
+		switch {
+		case c.ModeVia == "begin": // INPUTMODE assigned in BEGIN: every run is in that mode
+			b.setMode(c.Mode, "begin")
+		case r.Intn(3) == 0: // the mode is a Config field: it may change from run to run
+			b.setMode(r.Pick([]string{"csv", "tsv"}), "config")
+		}
 		if r.Intn(4) == 0 { // the same input again
-			b.Args, b.Stdin, b.Files = c.Args, c.Stdin, c.Files
+			b.Args, b.Stdin, b.Files, b.Mode, b.ModeVia = c.Args, c.Stdin, c.Files, c.Mode, c.ModeVia
 		}
 		h.Runs = append(h.Runs, b)
 	}
